@@ -19,7 +19,7 @@ class ChipsMonitor:
         ctx.violation(what, f'{detail} after {opn}: stacks={st.stacks} bets={st.bets} '
                       f'pots={[(p.raked_amount, p.unraked_amount, p.player_indices) for p in st.pots]} '
                       f'payoffs={st.payoffs} start={st.starting_stacks}',
-                      path=path, sig=(self.prop, what, opn))
+                      path=path, sig=(self.prop, what, 'nobody-live' if not any(st.statuses) else opn))
 
     def on_state(self, st, ms, menu, ctx):
         # also at every explored state: the final state is only visible here
